@@ -83,6 +83,48 @@ type Mismatch struct {
 	Aspect string // balance | rates | bank | status
 	Causes []string
 	Detail string
+	// Supply: the asset's total supply differs too (value created or destroyed).
+	Supply bool
+	// Admission: the daemon executed a conversion the model rejects, or the reverse.
+	Admission bool
+}
+
+// Owners lists every property whose statement the disagreement contradicts.
+func (m Mismatch) Owners() []string {
+	out := []string{m.Owner()}
+	add := func(p string) {
+		for _, x := range out {
+			if x == p {
+				return
+			}
+		}
+		out = append(out, p)
+	}
+	if m.Aspect == "balance" {
+		for _, c := range m.Causes {
+			if c == model.CTransfer {
+				add("C03")
+				add("C04")
+			}
+		}
+		if m.Supply {
+			add("C04")
+		}
+		if m.Admission {
+			add("C13")
+		}
+	}
+	return out
+}
+
+// OwnedBy reports whether property id owns the mismatch.
+func (m Mismatch) OwnedBy(id string) bool {
+	for _, o := range m.Owners() {
+		if o == id {
+			return true
+		}
+	}
+	return false
 }
 
 // Owner maps a mismatch to the property that owns the aspect.
@@ -171,6 +213,66 @@ func compareBlock(db *sql.DB, l *model.Ledger, res *model.BlockResult, prev map[
 	for a, m := range bals {
 		for t := range m {
 			check(a, t)
+		}
+	}
+	if len(out) > 0 {
+		// does total supply differ for the assets involved?
+		supplyDiff := map[int]bool{}
+		for t := 1; t <= world.NumTickers; t++ {
+			a, b := new(big.Int), new(big.Int)
+			for _, m := range bals {
+				if m[t] != nil {
+					a.Add(a, m[t])
+				}
+			}
+			b = l.Supply(t)
+			if a.Cmp(b) != 0 {
+				supplyDiff[t] = true
+			}
+		}
+		// conversions the daemon executed at this height although the model rejects them (or the reverse)
+		admission := map[string]bool{}
+		if rows, err := db.Query(`SELECT DISTINCT b.entry_hash, t.from_address FROM pn_history_txbatch b, pn_history_transaction t
+			WHERE b.entry_hash = t.entry_hash AND t.action_type = 2 AND b.executed = ?`, res.Height); err == nil {
+			for rows.Next() {
+				var hsh, from []byte
+				if rows.Scan(&hsh, &from) == nil {
+					if f := l.Fates[hex.EncodeToString(hsh)]; f == nil || f.Status <= 0 {
+						admission[hex.EncodeToString(from)] = true
+					}
+				}
+			}
+			rows.Close()
+		}
+		for hsh, f := range l.Fates {
+			if f.Status == int64(res.Height) {
+				var ex int64
+				hb, _ := hex.DecodeString(hsh)
+				if db.QueryRow(`SELECT executed FROM pn_history_txbatch WHERE entry_hash = ?`, hb).Scan(&ex) == nil && ex <= 0 {
+					var from []byte
+					if db.QueryRow(`SELECT from_address FROM pn_history_transaction WHERE entry_hash = ? AND action_type = 2 LIMIT 1`, hb).Scan(&from) == nil {
+						admission[hex.EncodeToString(from)] = true
+					}
+				}
+			}
+		}
+		for i := range out {
+			var tk int
+			for t := 1; t <= world.NumTickers; t++ {
+				if strings.Contains(out[i].Detail, " "+world.TickerNames[t]+":") {
+					tk = t
+				}
+			}
+			out[i].Supply = supplyDiff[tk]
+			for a := range admission {
+				if fa, err := hex.DecodeString(a); err == nil {
+					var x factom.FAAddress
+					copy(x[:], fa)
+					if strings.HasPrefix(out[i].Detail, x.String()+" ") {
+						out[i].Admission = true
+					}
+				}
+			}
 		}
 	}
 	sort.Slice(out, func(i, j int) bool { return out[i].Detail < out[j].Detail })
